@@ -39,6 +39,8 @@ type Config struct {
 	BeforeEcho func(c context.Context, ctx *app.RequestContext)
 	// ReadBody overrides how the streaming body is consumed (nil = io.ReadAll).
 	ReadBody func(r io.Reader) ([]byte, error)
+	// AfterEcho runs at the end of the handler, after the response has been prepared (may be nil).
+	AfterEcho func(c context.Context, ctx *app.RequestContext)
 	// Setup may register real routes (the echo handler is passed in); everything else goes to NoRoute.
 	Setup func(h *server.Hertz, echo app.HandlerFunc)
 }
@@ -111,6 +113,9 @@ func (e *Echo) handle(c context.Context, ctx *app.RequestContext) {
 	ctx.SetStatusCode(200)
 	ctx.Response.Header.Set("X-Echo-Index", fmt.Sprint(idx))
 	ctx.SetBodyString(fmt.Sprintf("idx=%d;method=%s;uri=%s;bodylen=%d", idx, o.Method, o.URI, len(o.Body)))
+	if e.Cfg.AfterEcho != nil {
+		e.Cfg.AfterEcho(c, ctx)
+	}
 }
 
 // Run serves one scripted connection and returns the observations.
